@@ -934,7 +934,8 @@ func (fr *Frame) loopHeader(b *ssa.BasicBlock, li *loopInfo, entryReach string, 
 		}
 	}
 	for _, p := range phis {
-		fr.declVal(p) // unconstrained apart from its type range
+		v := fr.declVal(p) // unconstrained apart from its type range
+		fr.allocated(v, hst)
 	}
 	// 3. assume invariants in the arbitrary iteration
 	for _, inv := range invs {
